@@ -21,6 +21,7 @@ type c09Req struct {
 	Origin string `json:"origin,omitempty"`
 	ACRM   string `json:"acrm,omitempty"`
 	ACRH   string `json:"acrh,omitempty"`
+	ACRH2  string `json:"acrh_second_header_line,omitempty"` // Access-Control-Request-Headers sent as two header lines: one list (RFC 9110 5.3)
 
 	w      *sim.SimWriter
 	events []string
@@ -113,6 +114,8 @@ func genC09(x *Ctx) *c09Scen {
 				if focus && tp.Chance(700) {
 					r.ACRM = []string{"PUT", "POST"}[tp.G(2)]
 					r.ACRH = ""
+				} else if tp.Chance(80) {
+					r.ACRH2 = []string{"X-Other", "Accept", "Authorization", "x-custom"}[tp.G(4)]
 				}
 			case 2: // OPTIONS without a requested method: an actual request
 				r.Method = "OPTIONS"
@@ -244,8 +247,23 @@ func (r *c09Req) serve(c *restful.Container, t *sim.Task) (*sim.SimWriter, strin
 		hdr["Access-Control-Request-Headers"] = r.ACRH
 	}
 	w := sim.NewSimWriter(t)
-	esc := Serve(c, EntryServeHTTP, w, NewReq(r.Method, r.Path, hdr, nil, 0, r.ID))
+	hr := NewReq(r.Method, r.Path, hdr, nil, 0, r.ID)
+	if r.ACRH2 != "" {
+		hr.Header.Add("Access-Control-Request-Headers", r.ACRH2)
+	}
+	esc := Serve(c, EntryServeHTTP, w, hr)
 	return w, c19Response(w, esc)
+}
+
+// requested: every header name the preflight asks for, over all header lines.
+func (r *c09Req) requested() string {
+	if r.ACRH2 == "" {
+		return r.ACRH
+	}
+	if r.ACRH == "" {
+		return r.ACRH2
+	}
+	return r.ACRH + "," + r.ACRH2
 }
 
 func originAllowed(sc *c09Scen, origin string) bool {
@@ -353,7 +371,7 @@ func runC09(x *Ctx) {
 	seqVariant = 1
 	defer func() { seqVariant = 0; seqReq = 0 }()
 	for _, r := range all {
-		what := fmt.Sprintf("request %d (%s %s Origin=%q ACRM=%q ACRH=%q; allowed methods %v headers %v domains %v)", r.ID, r.Method, r.Path, r.Origin, r.ACRM, r.ACRH, sc.Methods, sc.Headers, sc.Domains)
+		what := fmt.Sprintf("request %d (%s %s Origin=%q ACRM=%q ACRH=%q; allowed methods %v headers %v domains %v)", r.ID, r.Method, r.Path, r.Origin, r.ACRM, r.ACRH+map[bool]string{true: " + second line " + r.ACRH2, false: ""}[r.ACRH2 != ""], sc.Methods, sc.Headers, sc.Domains)
 		allowed := originAllowed(sc, r.Origin)
 		isPreflight := allowed && r.Method == "OPTIONS" && r.ACRM != ""
 		ac := acHeaders(r.w)
@@ -404,8 +422,8 @@ func runC09(x *Ctx) {
 					grant = true
 				}
 			}
-			if grant && r.ACRH != "" {
-				for _, h := range strings.Split(r.ACRH, ",") {
+			if grant && r.requested() != "" {
+				for _, h := range strings.Split(r.requested(), ",") {
 					h = strings.Trim(h, " ")
 					ok := false
 					for _, a := range sc.Headers {
@@ -421,7 +439,7 @@ func runC09(x *Ctx) {
 			has := func(k string) bool { return len(r.w.H[k]) > 0 }
 			if grant {
 				grants++
-				if !has("Access-Control-Allow-Methods") || !has("Access-Control-Allow-Origin") || r.w.H.Get("Access-Control-Allow-Methods") != strings.Join(sc.Methods, ",") || r.w.H.Get("Access-Control-Allow-Origin") != r.Origin || r.w.H.Get("Access-Control-Allow-Headers") != r.ACRH {
+				if !has("Access-Control-Allow-Methods") || !has("Access-Control-Allow-Origin") || r.w.H.Get("Access-Control-Allow-Methods") != strings.Join(sc.Methods, ",") || r.w.H.Get("Access-Control-Allow-Origin") != r.Origin || (r.ACRH2 == "" && r.w.H.Get("Access-Control-Allow-Headers") != r.ACRH) {
 					x.Violate("preflight-not-granted", "%s: method and headers are allowed but the response carries %v", what, ac)
 				}
 			} else {
@@ -435,8 +453,8 @@ func runC09(x *Ctx) {
 			// (b') computed methods: "the methods routable at that URL in the container", asked from the
 			// routers directly; with an admin adding a route meanwhile either registration state counts
 			headersOK := true
-			if r.ACRH != "" {
-				for _, h := range strings.Split(r.ACRH, ",") {
+			if r.requested() != "" {
+				for _, h := range strings.Split(r.requested(), ",") {
 					h = strings.Trim(h, " ")
 					ok := false
 					for _, a := range sc.Headers {
